@@ -9,7 +9,8 @@ validated step by step against the nondeterministic Lean model (drv_c42), and th
 """
 import json
 import os
-from vlib.core import diff_lines, ddmin
+import re
+from vlib.core import diff_lines, ddmin, REPO
 
 HERE = os.path.dirname(os.path.abspath(__file__))
 MAXLEN = {"bytes": 262144, "slices": 4096, "items": 4096}
@@ -277,6 +278,36 @@ def install_local_findings(ctx):
     return local
 
 
+def check_call_sites(ctx):
+    """The hypothesis of get_ok_items_partial (callers return itemBuf.B as handed out) is a fact about
+    the package's source: no code outside getItemBuf/putItemBuf assigns the B field of an itemBuf, and
+    every function that calls getItemBuf also calls putItemBuf."""
+    bad = []
+    for fn in sorted(os.listdir(REPO)):
+        if not fn.endswith(".go") or fn.endswith("_test.go"):
+            continue
+        src = open(os.path.join(REPO, fn)).read()
+        if "getItemBuf(" not in src and "itemBuf" not in src:
+            continue
+        # split into top-level functions
+        for m in re.finditer(r"^func [^\n]*?(\w+)\([^\n]*\{\n(.*?)^\}", src, re.S | re.M):
+            name, body = m.group(1), m.group(2)
+            if name in ("getItemBuf", "putItemBuf"):
+                continue
+            if "getItemBuf(" in body:
+                ctx.count("items:call-site", body.count("getItemBuf("))
+                if "putItemBuf(" not in body:
+                    bad.append(f"{fn}:{name} gets an item buffer but never returns it")
+                for v in set(re.findall(r"(\w+)\s*:?=\s*getItemBuf\(", body)):
+                    if re.search(r"\b%s\.B\s*=[^=]" % re.escape(v), body) or \
+                            re.search(r"\b%s\.B\s*=\s*append" % re.escape(v), body):
+                        bad.append(f"{fn}:{name} re-assigns {v}.B before putItemBuf")
+    ctx.extra["itembuf_call_sites_ok"] = not bad
+    for b in bad:
+        ctx.violation("correspondence", "assumption of get_ok_items_partial no longer holds: " + b,
+                      signature={"kind": "call-site", "what": b}, replay={"what": b}, no_input=True)
+
+
 def run(ctx):
     ctx.rule = ("random get/new/put scenarios per pool (bytes, byte-slice lists, item buffers) on the real "
                 "sync.Pool-backed pools: request lengths around powers of two, 0, negative, max, max+1; foreign "
@@ -299,6 +330,7 @@ def run(ctx):
                       no_input=True)
         return
     runner = Runner(ctx, bin_bpool, bin_root)
+    check_call_sites(ctx)
 
     scenarios = []
     if ctx.replay:
